@@ -28,6 +28,8 @@ U == {
   E("src/x.inc", "file", "inc", TRUE, 0),
   E("src/readonly.rs", "file", "rs", TRUE, 0),        \* mode 0444: replacing a file needs a writable directory, not a writable file
   E("src/hardlinked.rs", "file", "rs", TRUE, 0),      \* has a second hard link outside the source directory
+  E("src/pipe.rs", "fifo", "rs", TRUE, 0),            \* a named pipe nobody writes to: not a regular file
+  E("src/sub/sock.rs", "socket", "rs", TRUE, 1),      \* a socket: not a regular file
   E("outside/o.rs", "file", "rs", FALSE, 0),
   E("top.rs", "file", "rs", FALSE, 0),
   E("srcx/q.rs", "file", "rs", FALSE, 0) }
